@@ -532,9 +532,11 @@ pub mod implementations {
         let callback_state = if len != 1 {
             let mut arguments = HashMap::with_capacity(len - 1); // maybe len
             for var_name in &args[1..] {
-                let var = if let Some(var) = ctx.load_variable(var_name) {
+                let var = if let Ok(var) = ctx.load_local(var_name) {
                     var
                 } else if let Ok(var) = ctx.load_callback_variable(var_name) {
+                    var
+                } else if let Some(var) = ctx.load_variable(var_name) {
                     var
                 } else {
                     bail!("{var_name} is not in scope")
@@ -1188,9 +1190,12 @@ pub mod implementations {
             bail!("load requires a name")
         };
 
-        let var = if let Some(var) = ctx.load_variable(name) {
+        // lexical scoping: the running function's own frames, then what it captured, and only then the frames of its callers
+        let var = if let Ok(var) = ctx.load_local(name) {
             var
         } else if let Ok(var) = ctx.load_callback_variable(name) {
+            var
+        } else if let Some(var) = ctx.load_variable(name) {
             var
         } else {
             bail!("load before store (`{name}` not in scope)")
